@@ -100,9 +100,55 @@ struct Found {
     at: usize,
 }
 
+/// The node under test: the bare executor, or a sharded node (every command through ShardedActorState::execute, the clock the
+/// node's own time source) - multi-key commands then meet keys that live on different shards.
+enum Target {
+    Exec(ExecTarget),
+    Sharded { rt: tokio::runtime::Runtime, st: crate::c03::State, clock: crate::c03::ManualTime },
+}
+
+impl Target {
+    fn new(shards: usize) -> Target {
+        if shards == 0 {
+            return Target::Exec(ExecTarget::new());
+        }
+        let rt = tokio::runtime::Builder::new_current_thread().enable_all().build().expect("rt");
+        let (st, clock) = rt.block_on(async { crate::c03::new_state(shards) });
+        Target::Sharded { rt, st, clock }
+    }
+    fn advance(&mut self, ms: i64, mode: u8) {
+        match self {
+            Target::Exec(t) => t.advance(ms, mode),
+            Target::Sharded { rt, st, clock } => {
+                clock.0.fetch_add(ms.max(0) as u64, std::sync::atomic::Ordering::SeqCst);
+                if mode == 2 {
+                    rt.block_on(st.evict_expired_all_shards());
+                }
+            }
+        }
+    }
+    fn run(&mut self, a: &Argv) -> Result<Tree, String> {
+        match self {
+            Target::Exec(t) => t.run(a),
+            Target::Sharded { rt, st, .. } => guard(|| match parse_argv(a) {
+                Err(e) => {
+                    let known = ["ERR ", "WRONGTYPE ", "WRONGPASS ", "EXECABORT ", "NOAUTH ", "NOPERM "];
+                    let text = if known.iter().any(|p| e.starts_with(p)) { e } else { format!("ERR {}", e) };
+                    Tree::Error(text.into_bytes())
+                }
+                Ok(cmd) => myresp::from_resp(&rt.block_on(st.execute(&cmd))),
+            }),
+        }
+    }
+}
+
 /// Runs the sequence; checks every failing / read-only command. First violation or None.
-fn run(steps: &[Step], mut seen: impl FnMut(&str, &str, bool)) -> Option<Found> {
-    let mut t = ExecTarget::new();
+fn run(steps: &[Step], seen: impl FnMut(&str, &str, bool)) -> Option<Found> {
+    run_on(steps, 0, seen)
+}
+
+fn run_on(steps: &[Step], shards: usize, mut seen: impl FnMut(&str, &str, bool)) -> Option<Found> {
+    let mut t = Target::new(shards);
     for (i, s) in steps.iter().enumerate() {
         match s {
             Step::Advance(ms, mode) => t.advance(*ms, *mode),
@@ -138,7 +184,7 @@ fn run(steps: &[Step], mut seen: impl FnMut(&str, &str, bool)) -> Option<Found> 
                         (name, facet)
                     };
                     return Some(Found {
-                        sig: format!("C17|{}|{}|{}", name, why, facet),
+                        sig: if shards == 0 || name.starts_with("EVAL:") { format!("C17|{}|{}|{}", name, why, facet) } else { format!("C17|{}|{}|{}|sharded-node", name, why, facet) },
                         detail: format!("step {} {:?} replied {:?} but the visible keyspace changed: {:?} -> {:?}", i, a.iter().map(|x| lossy(x)).collect::<Vec<_>>(), got, before, after),
                         at: i,
                     });
@@ -172,8 +218,9 @@ pub fn leg(args: &Args) {
     if let Some(p) = &args.replay {
         let w: Value = serde_json::from_str(&std::fs::read_to_string(p).expect("replay")).expect("json");
         let steps: Vec<Step> = w["witness"]["steps"].as_array().unwrap().iter().map(step_from).collect();
+        let shards = w["witness"]["shards"].as_u64().unwrap_or(0) as usize;
         rep.evaluations += 1;
-        if let Some(f) = run(&steps, |_, _, _| {}) {
+        if let Some(f) = run_on(&steps, shards, |_, _, _| {}) {
             rep.violation(f.sig, f.detail, w["witness"].clone());
         }
         rep.finish(args);
@@ -220,6 +267,47 @@ pub fn leg(args: &Args) {
                 rep.violation(f2.sig, f2.detail, json!({"steps": small.iter().map(step_json).collect::<Vec<_>>()}));
             } else {
                 rep.count("violations_raw");
+            }
+        }
+        // the same sequence on a sharded node (a third of the sequences; 4 shards, sometimes 2), plus a directed preamble
+        // for the two-key commands: a one-element list with a deadline as the source, every type as the destination
+        if s % 3 == 0 {
+            let shards = if s % 2 == 0 { 4 } else { 2 };
+            let mut st2 = vec![];
+            if s % 6 == 0 {
+                let (src, dst) = (["k1", "k2", "k3", "k4"][rng.gen_range(0..4)], ["k1", "k2", "k3", "k4"][rng.gen_range(0..4)]);
+                st2.push(Step::Cmd(vec![b("DEL"), b(src), b(dst)]));
+                st2.push(Step::Cmd(vec![b("RPUSH"), b(src), b("only")]));
+                st2.push(Step::Cmd(vec![b("PEXPIRE"), b(src), b("500000")]));
+                st2.push(Step::Cmd(match rng.gen_range(0..4) {
+                    0 => vec![b("SET"), b(dst), b("str")],
+                    1 => vec![b("HSET"), b(dst), b("f"), b("v")],
+                    2 => vec![b("SADD"), b(dst), b("m")],
+                    _ => vec![b("ZADD"), b(dst), b("1"), b("m")],
+                }));
+                st2.push(Step::Cmd(if rng.gen_bool(0.5) { vec![b("RPOPLPUSH"), b(src), b(dst)] } else { vec![b("LMOVE"), b(src), b(dst), b(["LEFT", "RIGHT"][rng.gen_range(0..2)]), b(["LEFT", "RIGHT"][rng.gen_range(0..2)])] }));
+                st2.push(Step::Cmd(vec![b("RENAME"), b("no-such-key"), b(src)]));
+            }
+            st2.extend(steps.iter().cloned());
+            rep.count("sequences_on_a_sharded_node");
+            if let Some(f) = run_on(&st2, shards, |_, _, _| {}) {
+                if !rep.has_sig(&f.sig) {
+                    // shrink on the same number of shards
+                    let mut cur = st2.clone();
+                    cur.truncate(f.at + 1);
+                    let mut i = 0;
+                    while i + 1 < cur.len() {
+                        let mut cand = cur.clone();
+                        cand.remove(i);
+                        if run_on(&cand, shards, |_, _, _| {}).map(|g| g.sig == f.sig).unwrap_or(false) {
+                            cur = cand;
+                        } else {
+                            i += 1;
+                        }
+                    }
+                    let f2 = run_on(&cur, shards, |_, _, _| {}).unwrap_or(f);
+                    rep.violation(f2.sig, f2.detail, json!({"shards": shards, "steps": cur.iter().map(step_json).collect::<Vec<_>>()}));
+                }
             }
         }
         if s < 2 {
